@@ -172,6 +172,25 @@ fn rule_c14(ctx: &Ctx, out: &mut Vec<Violation>) {
             }
         }
     }
+    // C14.stop, key round_continues: once DeleteSubscription has returned, the push round that is
+    // working through a page stops (the round watches the deletion signal; the POST it was about
+    // to start may still go out, so up to two are tolerated).
+    for (sub, dels) in m.sub_deletes.iter() {
+        let inst = match m.unique_sub(sub) {
+            Some(i) if i.push.is_some() => i,
+            _ => continue,
+        };
+        let _ = inst;
+        if m.sub_creates.get(sub).map(|c| c.len()).unwrap_or(0) != 1 {
+            continue;
+        }
+        if let Some(del) = dels.iter().map(|d| &m.calls[d]).find(|d| d.returned_ok()) {
+            let after: Vec<&PostInfo> = m.posts.values().filter(|p| p.sub == *sub && p.seq > del.ret_seq.unwrap()).collect();
+            if after.len() > 2 {
+                out.push(v("C14.stop", "round_continues", format!("{}: {} POSTs were started after DeleteSubscription had returned (seq {}), the first at {}us", sub, after.len(), del.ret_seq.unwrap(), after.iter().map(|p| p.t).min().unwrap_or(0))));
+            }
+        }
+    }
     // C14.accept: an accepting answer inside the lease settles the message for good.
     for ((sub, msg), list) in m.deliveries_by_key.iter() {
         if list.len() < 2 {
